@@ -29,7 +29,32 @@ def passes_received_arg(fa, n, call, fi) -> bool:
             args.append(k.value)
     if not args:
         return False
-    return fa.sym.term(args[0], n) == want
+    t = fa.sym.term(args[0], n)
+    if t == want:
+        return True
+    # self.<attr> right after 'super().set_rng(<received>)' whose resolved definition stores its argument into that attribute:
+    # the attribute IS the received generator at this point
+    me = fa.self_name
+    attr = t[1] if t[0] == "self" else (t[1].split(".", 1)[1] if t[0] == "var" and me and t[1].startswith(me + ".") else None)
+    if attr is None or fi.cls is None:
+        return False
+    from ..types_ import _is_super
+    for m, c in fa.calls():
+        if not (isinstance(c.func, ast.Attribute) and c.func.attr == fi.name and _is_super(c.func.value) and c.args
+                and fa.sym.term(c.args[0], m) == want and m != n and fa.cfg.dominates(m, n)):
+            continue
+        base = fi.cls.lookup_after(fi.cls, fi.name)
+        if base is None:
+            continue
+        bps = base.params()
+        stores_it = any(isinstance(st, ast.Assign) and len(st.targets) == 1 and isinstance(st.targets[0], ast.Attribute)
+                        and isinstance(st.targets[0].value, ast.Name) and st.targets[0].value.id == bps[0]
+                        and st.targets[0].attr == attr and isinstance(st.value, ast.Name) and len(bps) > 1 and st.value.id == bps[1]
+                        for st in base.node.body)
+        rebound = [x for x, var, val in fa.stores() if var == f"{me}.{attr}" and fa.cfg.reachable(m, x) and fa.cfg.reachable(x, n)]
+        if stores_it and not rebound:
+            return True
+    return False
 
 
 def transform_modules(prog: Program) -> List[str]:
